@@ -8,7 +8,8 @@ Open Scope nat_scope.
    otherwise a fresh array of ANY sufficient capacity): for EVERY program of the
    property's language - trees of With()...Logger() chains, Level / Sample / Hook
    (header copies), Output (make + copy), UpdateContext on loggers produced by
-   With()...Logger() or Output, events emitted from any node in any order
+   With()...Logger() or Output (the updating function calling any sequence of
+   appending context methods and Reset()), events emitted from any node in any order
    ([in_language]: each Context value is consumed by the call that uses it) - and
    EVERY growth policy, each emitted event reads exactly the context of its own
    derivation path (the pure semantics [prun], where a variable's context is a
@@ -49,12 +50,15 @@ Theorem C05_logger_context_reaches_event :
   existsb (String.eqb "ctx") logger_newEvent_sets = true /\ existsb (String.eqb "ch") logger_newEvent_sets = true.
 Proof. exact logger_newEvent_sets_ctx. Qed.
 
-(* non-vacuity: a branching tree in the language *)
+(* non-vacuity: a branching tree in the language; the parent (3) is reset and refilled through
+   UpdateContext after a Level copy (4) of it was taken - the copy keeps the old fields *)
 Example C05_ex :
   let p := [HRoot; HWith 0; HOp 1 [98]%N; HLogger 2; HCopy 3; HWith 3; HOp 5 [65]%N; HLogger 6; HWith 4; HOp 8 [66]%N; HLogger 9;
-            HUpdate 3 [[67]%N]; HOutput 7; HEmit 3; HEmit 4; HEmit 7; HEmit 10; HEmit 11] in
+            HUpdate 3 [CApp [67]%N]; HOutput 7; HEmit 3; HEmit 4; HEmit 7; HEmit 10; HEmit 11;
+            HUpdate 3 [CReset; CApp [68]%N]; HEmit 3; HEmit 4; HWith 3; HReset 12; HOp 13 [69]%N; HLogger 14; HEmit 15; HEmit 3] in
   in_language p = true /\
-  ps_obs (prun p) = [[123;98;67]; [123;98]; [123;98;65]; [123;98;66]; [123;98;65]]%N.
+  ps_obs (prun p) = [[123;98;67]; [123;98]; [123;98;65]; [123;98;66]; [123;98;65];
+                     [123;68]; [123;98]; [123;69]; [123;68]]%N.
 Proof. vm_compute. auto. Qed.
 
 Print Assumptions C05_independent.
